@@ -249,7 +249,10 @@ func (d *Decoder) readTypedList(tag byte) (interface{}, error) {
 
 		v := EnsureRawValue(item)
 		if isVariableArr {
-			aryValue = reflect.Append(aryValue, v)
+			// convert to the element type as the fixed-length form does (int32 to int, *A to A, ...)
+			el := reflect.New(aryType.Elem()).Elem()
+			SetValue(el, v)
+			aryValue = reflect.Append(aryValue, el)
 			holder.change(aryValue)
 		} else {
 			SetValue(aryValue.Index(j), v)
